@@ -256,6 +256,7 @@ func (rs *rowStore) processInserts(offsetsBySource common.OffsetsBySource, stop 
 
 			if ms.offsetChanged {
 				rs.t.log.Debug("No new data, but we've advanced through the WAL, record the change")
+				verifPoint("flush.offsetsOnly")
 				err := rs.writeOffsets(ms.offsetsBySource)
 				if err != nil {
 					rs.t.log.Errorf("Unable to write updated offset: %v", err)
@@ -293,6 +294,7 @@ func (rs *rowStore) processInserts(offsetsBySource common.OffsetsBySource, stop 
 				rs.t.updateHighWaterMarkMemory(insert.vals.TimeInt())
 			}
 			rs.mx.Unlock()
+			verifPoint("rs.afterInsert")
 		case <-flushTimer.C:
 			rs.t.log.Trace("Requesting flush due to flush interval")
 			flush(false)
@@ -335,6 +337,7 @@ func (rs *rowStore) iterate(ctx context.Context, outFields core.Fields, includeM
 		ms = rs.memStore.copy()
 	}
 	rs.mx.RUnlock()
+	verifPoint("iterate.afterCopy")
 	rs.mx.Lock()
 	rs.iterationsInProgress[fs.filename]++
 	rs.mx.Unlock()
@@ -343,6 +346,7 @@ func (rs *rowStore) iterate(ctx context.Context, outFields core.Fields, includeM
 		rs.iterationsInProgress[fs.filename]--
 		rs.mx.Unlock()
 	}()
+	verifPoint("iterate.beforeScan")
 	return fs.iterate(outFields, ms, false, false, func(key bytemap.ByteMap, columns []encoding.Sequence, raw []byte) (bool, error) {
 		return guard.ProceedAfter(onValue(key, columns))
 	})
@@ -382,6 +386,7 @@ func (rs *rowStore) doProcessFlush(ms *memstore, allowSort, allowFailure bool) (
 	}
 
 	fs.t.log.Debugf("Starting flush, %v", willSort)
+	verifPoint("flush.start")
 	start := time.Now()
 
 	out, err := ioutil.TempFile("", "nextrowstore")
@@ -391,6 +396,7 @@ func (rs *rowStore) doProcessFlush(ms *memstore, allowSort, allowFailure bool) (
 	defer out.Close()
 
 	highWaterMark, rowCount, flushErr := fs.flush(out, rs.fields, nil, ms.offsetsBySource, ms, shouldSort, disallowRaw)
+	verifPoint("flush.afterWrite")
 	if flushErr != nil {
 		shasum, err := calcShaSum(fs.filename)
 		if err != nil {
@@ -410,6 +416,7 @@ func (rs *rowStore) doProcessFlush(ms *memstore, allowSort, allowFailure bool) (
 	if syncErr := out.Sync(); syncErr != nil {
 		rs.t.db.Panic(syncErr)
 	}
+	verifPoint("flush.afterSync")
 	fi, err := out.Stat()
 	if err != nil {
 		fs.t.log.Errorf("Unable to stat output file to get size: %v", err)
@@ -422,9 +429,11 @@ func (rs *rowStore) doProcessFlush(ms *memstore, allowSort, allowFailure bool) (
 	// ensure lexicographical sort matches time-based sort (e.g. on directory
 	// listing).
 	newFileStoreName := filepath.Join(rs.opts.dir, fmt.Sprintf("filestore_%020d_%d.dat", time.Now().UnixNano(), CurrentFileVersion))
+	verifPoint("flush.beforeRename")
 	if renameErr := os.Rename(out.Name(), newFileStoreName); renameErr != nil {
 		rs.t.db.Panic(renameErr)
 	}
+	verifPoint("flush.afterRename")
 	defer func() {
 		shasum, err := calcShaSum(newFileStoreName)
 		if err != nil {
@@ -440,6 +449,7 @@ func (rs *rowStore) doProcessFlush(ms *memstore, allowSort, allowFailure bool) (
 	rs.fileStore = fs
 	rs.memStore = ms
 	rs.mx.Unlock()
+	verifPoint("flush.afterSwap")
 
 	flushDuration := time.Now().Sub(start)
 	if fi != nil {
@@ -469,9 +479,12 @@ func (fs *fileStore) flush(out *os.File, fields core.Fields, filter goexpr.Expr,
 		if nextHighWaterMark > highWaterMark {
 			highWaterMark = nextHighWaterMark
 		}
+		verifPoint("flush.row")
 		rowCount++
 		return true, nil
 	}
+
+	verifPoint("flush.afterHeader")
 
 	iterate := func() (err error) {
 		defer func() {
@@ -665,21 +678,25 @@ func (rs *rowStore) writeOffsets(offsetsBySource common.OffsetsBySource) error {
 	if err != nil {
 		return errors.New("Unable to write offsets: %v", err)
 	}
+	verifPoint("offsets.afterWrite")
 
 	err = out.Sync()
 	if err != nil {
 		return errors.New("Unable to sync offset file: %v", err)
 	}
+	verifPoint("offsets.afterSync")
 	err = out.Close()
 	if err != nil {
 		return errors.New("Unable to close offset file: %v", err)
 	}
+	verifPoint("offsets.beforeRename")
 
 	return os.Rename(out.Name(), filepath.Join(rs.opts.dir, offsetFilename))
 }
 
 func (rs *rowStore) removeOldFiles(stop <-chan interface{}) {
 	ticker := time.NewTicker(10 * time.Second)
+	verifResetTicker(ticker, 10*time.Second)
 	defer ticker.Stop()
 
 	for {
@@ -714,10 +731,12 @@ func (rs *rowStore) removeOldFiles(stop <-chan interface{}) {
 					// Okay to delete now
 					name := filepath.Join(rs.opts.dir, filename)
 					rs.t.log.Debugf("Removing old file %v", name)
+					verifPoint("remove.before")
 					err := os.Remove(name)
 					if err != nil {
 						rs.t.log.Errorf("Unable to delete old file store %v, still consuming disk space unnecessarily: %v", name, err)
 					}
+					verifPoint("remove.after")
 				}
 			}
 		}
